@@ -61,6 +61,10 @@ def plan(tier, seed):
         cases.append({"std": "waittimer", "topo": "-", "T": 0, "kind": "-", "seed": "%d/C11/waittimer/%d" % (seed, k)})
     for k in range(30 if tier == "quick" else 240):
         cases.append({"std": "ctrl", "topo": "-", "T": TS[k % len(TS)], "kind": "-", "seed": "%d/C11/ctrl/%d" % (seed, k)})
+    for T in TS:
+        for skew in range(-3, 4):
+            cases.append({"std": "ctrl-axil", "topo": "-", "T": T, "kind": "skew%+d" % skew if skew else "skew0", "skew": skew,
+                          "seed": "%d/C11/ctrl-axil/%d/%d" % (seed, T, skew)})
     n = 64 if tier == "quick" else 192
     return [{"id": "to%03d" % i, "cls": "timeout", "cases": cases[i::n]} for i in range(n)]
 
@@ -450,8 +454,75 @@ def run_ctrl(case, rng):
             "sample": {"start": start, "timeouts": n_to, "end": end}, "cycles": bench.cycle["sys"]}
 
 
+def run_ctrl_axil(case, rng):
+    """AXI-Lite shared interconnect with timeout, error wire to SoCController.bus_error as SoC.finalize does. A write and a read to a
+    silent slave are started `skew` cycles apart, so that the write-side and the read-side time-outs expire `skew` cycles apart
+    (adjacent cycles included): every SLVERR-terminated request is one bus error."""
+    T, skew = case["T"], case["skew"]
+    m = axi.AXILiteInterface(data_width=32, address_width=12)
+    s = axi.AXILiteInterface(data_width=32, address_width=12)
+    top = Module()
+    top.submodules.ic = ic = axi.AXILiteInterconnectShared([m], [((lambda a: a[8:] == 0), s)], timeout_cycles=T)
+    top.submodules.ctrl = ctrl = SoCController()
+    top.comb += ctrl.bus_error.eq(ic.timeout.error)
+    status = ctrl._bus_errors.status
+    rounds = 6
+    period = T + 14 + abs(skew)
+    log = {"b": [], "r": [], "status": [], "err": []}
+
+    class Drv:
+        def __init__(self):
+            self.aw = self.w = self.ar = False
+
+        def signals(self):
+            return [m.aw.ready, m.w.ready, m.ar.ready, m.b.valid, m.b.resp, m.r.valid, m.r.resp, m.r.data, status, ic.timeout.error]
+
+        def step(self, v, c):
+            log["status"].append(v[status] & 0xffffffff)
+            if v[ic.timeout.error]:
+                log["err"].append(c)
+            if self.aw and v[m.aw.ready]:
+                self.aw = False
+            if self.w and v[m.w.ready]:
+                self.w = False
+            if self.ar and v[m.ar.ready]:
+                self.ar = False
+            if v[m.b.valid]:
+                log["b"].append((c, v[m.b.resp]))
+            if v[m.r.valid]:
+                log["r"].append((c, v[m.r.resp], v[m.r.data] & 0xffffffff))
+            k, ph = divmod(c + 1, period)
+            if k < rounds:
+                if ph == 4 + max(0, -skew):
+                    self.aw = self.w = True
+                if ph == 4 + max(0, skew):
+                    self.ar = True
+            return {m.aw.valid: int(self.aw), m.aw.addr: 0x10, m.w.valid: int(self.w), m.w.data: 0x1234, m.w.strb: 0xf,
+                    m.ar.valid: int(self.ar), m.ar.addr: 0x20, m.b.ready: 1, m.r.ready: 1}
+
+        def done(self):
+            return False
+    bench = Bench(top, cap=rounds * period + 20)
+    bench.add(Drv())
+    bench.run()
+    errs = []
+    n_slverr = sum(1 for _, r_ in log["b"] if r_ == RESP_SLVERR) + sum(1 for e in log["r"] if e[1] == RESP_SLVERR)
+    start, end = log["status"][2], log["status"][-1]
+    if len(log["b"]) != rounds or len(log["r"]) != rounds:
+        errs.append({"kind": "request-never-terminated", "b": len(log["b"]), "r": len(log["r"]), "rounds": rounds})
+    elif n_slverr != 2 * rounds or any(e[2] != 0xffffffff for e in log["r"]):
+        errs.append({"kind": "termination-without-error-indication", "slverr": n_slverr, "expected": 2 * rounds})
+    elif end - start != n_slverr:
+        errs.append({"kind": "bus-error-counter-wrong", "skew": skew, "timed_out_requests": n_slverr, "counter_increase": end - start,
+                     "error_pulse_cycles": log["err"][:6]})
+    return {"errs": errs, "timeouts": n_slverr, "intime": 0, "races": 0, "capped": False, "pulses": len(log["err"]),
+            "sample": {"skew": skew, "T": T, "timed_out": n_slverr, "counter_increase": end - start}, "cycles": bench.cycle["sys"]}
+
+
 def run_case(case):
     rng = rng_for(case["seed"])
+    if case["std"] == "ctrl-axil":
+        return run_ctrl_axil(case, rng)
     if case["std"] == "wb":
         return run_wb(case, rng)
     if case["std"] == "axil":
@@ -486,7 +557,11 @@ def run_shard(shard):
         for e in r["errs"][:1]:
             key = "%s-%s/%s/%s" % (case["std"], case["topo"], case["kind"] if case["kind"] in ("resp", "slow") else "mute", e["kind"])
             hang = e["kind"] in ("request-never-terminated", "accepted-request-whose-response-never-comes-is-not-timed")
-            if case["topo"] == "crossbar" and (hang or e["kind"] == "termination-not-at-configured-timeout"):
+            if case["std"] == "ctrl-axil":
+                # the read-side and write-side error pulses share one wire: expiring in the same cycle (skew 0) they are one pulse
+                key = "ctrl-axil/%s/%s" % ("same-cycle-read-and-write-timeouts" if case["skew"] == 0 else "timeouts-%d-cycles-apart" % abs(case["skew"]),
+                                           e["kind"])
+            elif case["topo"] == "crossbar" and (hang or e["kind"] == "termination-not-at-configured-timeout"):
                 # (a request that a slow slave answers after more than T cycles is the same root cause: no timeout runs)
                 # root cause: the crossbar classes accept timeout_cycles and never instantiate a timeout
                 key = "%s-crossbar/timeout_cycles-ignored" % case["std"]
@@ -498,6 +573,6 @@ def run_shard(shard):
                                                                     case.get("mute_from", case.get("lat")), e), {"errors": r["errs"][:3]})
         if r["capped"] and not r["errs"]:
             col.inconc(case, "cycle cap reached without a recorded error")
-        col.case_done(case, r["timeouts"] > 0 or r["races"] > 0 or case["std"] in ("waittimer", "ctrl"),
+        col.case_done(case, r["timeouts"] > 0 or r["races"] > 0 or case["std"] in ("waittimer", "ctrl", "ctrl-axil"),
                       sample={"case": case, "timeouts": r["timeouts"], "answered_in_time": r["intime"], "observed": r["sample"]})
     return col.result()
